@@ -59,7 +59,7 @@ class Task(object):
 
 class Sim(object):
     def __init__(self, tape, run, preempt_p=0.0, prim_p=None, target_files=(), target_prefixes=(), jitter=0,
-                 placements=None, max_steps=200000, max_time=1e7, epoch=1.6e9, trace_lines=True):
+                 placements=None, max_steps=200000, max_time=1e7, epoch=1.6e9, trace_lines=True, timeskip=0.0):
         self.tape = tape
         self.run = run
         self.preempt_p = preempt_p
@@ -73,6 +73,9 @@ class Sim(object):
         self.max_time = max_time
         self.epoch = epoch
         self.trace_lines = trace_lines
+        # a pre-empted task may stay descheduled while virtual time passes: a pre-emption may hand the processor to the
+        # task whose timer is due next, if that is at most `timeskip` seconds ahead (0 = computation never takes time)
+        self.timeskip = timeskip
         self.now = 0.0
         self.tasks = []
         self.current = None
@@ -149,26 +152,27 @@ class Sim(object):
         self._count_step()
         others = None
         if idx in self.placements:
-            others = self._others(cur)
+            others = self._preempt_candidates(cur)
             if others:
                 nxt = others[self.placements[idx] % len(others)]
-                self.run.ev('place', idx, cur.id, nxt.id, os.path.basename(frame.f_code.co_filename), frame.f_lineno)
+                name = nxt.name if not isinstance(nxt, tuple) else '%s(after %.3fs)' % (nxt[1][2].name, nxt[1][0] - self.now)
+                self.run.ev('place', idx, cur.id, name, os.path.basename(frame.f_code.co_filename), frame.f_lineno)
                 self.run.say('switch %s->%s before %s:%d (placed #%d)' % (
-                    cur.name, nxt.name, os.path.basename(frame.f_code.co_filename), frame.f_lineno, idx))
-                self._transfer(cur, nxt)
+                    cur.name, name, os.path.basename(frame.f_code.co_filename), frame.f_lineno, idx))
+                self._switch_to_candidate(cur, nxt)
             return
         if self.preempt_p <= 0:
             return
-        others = self._others(cur)
+        others = self._preempt_candidates(cur)
         if not others:
             return
         if not self.tape.coin(self.preempt_p):
             return
         nxt = others[self.tape.draw(len(others))]
-        self.run.ev('pre', cur.id, nxt.id, os.path.basename(frame.f_code.co_filename), frame.f_lineno)
-        self.run.say('switch %s->%s before %s:%d' % (
-            cur.name, nxt.name, os.path.basename(frame.f_code.co_filename), frame.f_lineno))
-        self._transfer(cur, nxt)
+        name = nxt.name if not isinstance(nxt, tuple) else '%s(after %.3fs)' % (nxt[1][2].name, nxt[1][0] - self.now)
+        self.run.ev('pre', cur.id, name, os.path.basename(frame.f_code.co_filename), frame.f_lineno)
+        self.run.say('switch %s->%s before %s:%d' % (cur.name, name, os.path.basename(frame.f_code.co_filename), frame.f_lineno))
+        self._switch_to_candidate(cur, nxt)
 
     class _Quiet(object):
         def __init__(self, sim):
@@ -193,6 +197,32 @@ class Sim(object):
 
     def _others(self, cur):
         return [t for t in self.tasks if t.state == RUNNABLE and t is not cur]
+
+    def _preempt_candidates(self, cur):
+        """Tasks a pre-emption may switch to: the runnable ones, plus (with timeskip) the sleeper whose timer is next."""
+        cands = self._others(cur)
+        if self.timeskip > 0:
+            while self.timers and (self.timers[0][2].wait_token != self.timers[0][3] or self.timers[0][2].state != BLOCKED):
+                heapq.heappop(self.timers)
+            if self.timers and self.timers[0][0] <= self.now + self.timeskip:
+                cands = cands + [('timer', self.timers[0])]
+        return cands
+
+    def _switch_to_candidate(self, cur, cand):
+        if isinstance(cand, tuple):
+            e = cand[1]
+            heapq.heappop(self.timers)
+            t = e[2]
+            if e[0] > self.now:
+                self.now = e[0]
+            t.state = RUNNABLE
+            t.wake_reason = 'timeout'
+            t.wait_token += 1
+            self.run.ev('timeskip', round(self.now, 6), t.id)
+            self.run.probe('timeskip_preemption')
+            cand = t
+        self._transfer(cur, cand)
+        return cand
 
     def _me(self):
         cur = self.current
